@@ -413,6 +413,19 @@ theorem eval_substWith (env : Var → Int) (r : Var → Option Est) (hc : Consis
   simp only [termSum] at this
   unfold evalP; omega
 
+/-- adding a promise adds what the promise stands for -/
+theorem eval_addEst (env : Var → Int) (σ : Known) (hc : Consistent env σ) (p : P) (i : Var) :
+    evalP env (addEst σ p i) = evalP env p + env i := by
+  unfold addEst
+  cases hl : look σ i with
+  | none => simp only; rw [eval_add, eval_ofVar]
+  | some e =>
+    have := hc i e hl
+    cases e with
+    | int k => simp only at this ⊢; rw [eval_addConst, this]
+    | var w => simp only at this ⊢; rw [eval_add, eval_ofVar, this]
+    | poly q => simp only at this ⊢; rw [eval_add, this]
+
 /-- `_substitute_known` keeps the meaning under every assignment that agrees with what is known -/
 theorem eval_substKnown (env : Var → Int) (σ : Known) (hc : Consistent env σ) (p : P) :
     evalP env (substKnown σ p) = evalP env p := eval_substWith env _ hc p
